@@ -165,15 +165,16 @@ func init() {
 			}
 		}
 
+		recv := c06RecvBufs{}
 		if a[1] != "-" {
 			for i, e := range strings.Split(a[1], ";") {
 				f := strings.Split(e, ":")
 				clk.ms = int64(i)
 				switch f[0] {
 				case "M":
-					group.OnReadRtmpAvMsg(c06Msg(f[1], f[2], f[3]))
+					recv.feed(c06Msg(f[1], f[2], f[3]), group.OnReadRtmpAvMsg)
 				case "I":
-					group.OnReadRtmpAvMsg(c06Msg("18", "0", f[3]))
+					recv.feed(c06Msg("18", "0", f[3]), group.OnReadRtmpAvMsg)
 				case "Jt":
 					c := &tsSub{id: numTok(f[1]), conn: newFakeConn(nil)}
 					c.s = httpts.NewSubSession(c.conn, base.UrlContext{}, false, "k")
